@@ -380,9 +380,108 @@ class SharedRegistry(Suite):
         return repr(case)
 
 
+CUSTOM_SRC = '''
+from taskchain import Task
+from taskchain.data import JSONData
+
+RUNS = []
+
+class Table(JSONData):          # a data class whose objects are made by run, with constructor arguments
+    DATA_TYPES = []
+    def __init__(self, rows):
+        super().__init__()
+        self._value = rows
+
+class Raw(Task):
+    def run(self) -> dict:
+        RUNS.append('raw')
+        return {'rows': [1, 2, 3]}
+
+class Rows(Task):
+    class Meta:
+        input_tasks = [Raw]
+    def run(self, raw) -> Table:
+        RUNS.append('rows')
+        return Table(raw['rows'])
+
+class Report(Task):
+    class Meta:
+        input_tasks = [Rows]
+    def run(self, rows) -> dict:
+        RUNS.append('report')
+        return {'n': len(rows)}
+'''
+
+
+class InspectionRunsNothing(Suite):
+    """a chain that holds a task whose data class takes constructor arguments (its objects are made by run): task tables,
+    has_data, paths, run info, logs and readable links of every task - whatever they answer or raise for that task -
+    execute no run; requesting a value afterwards runs what is needed, once.  Runtime check only."""
+    name = 'inspection_of_custom_data_classes'
+    model = ''
+    CALLS = ('tasks_df', 'has_data', 'data_path', 'run_info', 'log', 'create_readable_filenames')
+
+    def gen(self, rng, tier):
+        return [dict(call=c, computed=k) for c in self.CALLS for k in (False, True)]
+
+    def run_impl(self, case):
+        import sys, types
+        from pathlib import Path
+        from taskchain import Config
+        from .. import pipeline as pl
+        with pl.workspace(dict(classes=[], files={})) as (d, _):
+            name = 'tcv_customdata'
+            m = types.ModuleType(name)
+            sys.modules[name] = m
+            try:
+                exec(compile(CUSTOM_SRC, name, 'exec'), m.__dict__)
+
+                def chain():
+                    return Config(Path('data'), name='c', data={'tasks': [f'{name}.*']}).chain()
+                if case['computed']:
+                    _ = chain()['report'].value
+                m.RUNS.clear()
+                ch = chain()
+                answers = {}
+                for n, t in ch.tasks.items():
+                    try:
+                        if case['call'] == 'tasks_df':
+                            answers[n] = str(type(ch.tasks_df).__name__)
+                        elif case['call'] == 'create_readable_filenames':
+                            ch.create_readable_filenames(name='c')
+                            answers[n] = 'ok'
+                        else:
+                            answers[n] = str(getattr(t, case['call']))[:60]
+                    except Exception as e:
+                        answers[n] = f'raised {type(e).__name__}'
+                ran = list(m.RUNS)
+                m.RUNS.clear()
+                v = chain()['report'].value
+                return dict(answers=answers, ran=ran, value=v, ran_value=list(m.RUNS))
+            finally:
+                sys.modules.pop(name, None)
+
+    def oracle(self, case, obs):
+        if 'unexpected_exception' in obs:
+            return f'unexpected exception {obs["unexpected_exception"]}: {obs["text"]}'
+        if obs['ran']:
+            return f'{case}: inspecting the chain ({case["call"]}) executed {obs["ran"]}'
+        if obs['value'] != {'n': 3}:
+            return f'{case}: report yields {obs["value"]}'
+        if any(obs['ran_value'].count(n) > 1 for n in ('raw', 'rows', 'report')):
+            return f'{case}: the request ran a task twice: {obs["ran_value"]}'
+        return None
+
+    def nontrivial(self, case, obs):
+        return True
+
+    def key(self, case):
+        return repr(case)
+
+
 class C04(Prop):
     pid = 'C04'
-    suites = [Plain(), Mixed(), DataKinds(), ReadableLinks(), OnDemandInputs(), NameModeNeighbours(), SharedRegistry()]
+    suites = [Plain(), Mixed(), DataKinds(), ReadableLinks(), OnDemandInputs(), NameModeNeighbours(), SharedRegistry(), InspectionRunsNothing()]
     assumptions = ['one-shot data classes (JSON, in-memory); resumable ContinuesData is re-run by design until finished()']
 
 
